@@ -215,7 +215,10 @@ fn rust_call(r: &mut RLN, c: &Call) -> Ret {
 /// Buffer / bool are uninitialised storage written by the callee.
 fn ffi_call(ctx: *mut RLN, c: &Call) -> Ret {
     let mut ob = MaybeUninit::<Buffer>::uninit();
-    let mut vb = MaybeUninit::<bool>::uninit();
+    // the verdict out-parameter starts with a value that alternates from call to call: an export that reports
+    // success without writing its verdict then returns whatever the caller's variable held before
+    static VERDICT_POISON: std::sync::atomic::AtomicBool = std::sync::atomic::AtomicBool::new(true);
+    let mut vb = MaybeUninit::<bool>::new(VERDICT_POISON.fetch_xor(true, std::sync::atomic::Ordering::Relaxed));
     let outb = |ok: bool, ob: &MaybeUninit<Buffer>| Ret::Bytes(ok, if ok { read_out(ob) } else { vec![] });
     let outv = |ok: bool, vb: &MaybeUninit<bool>| Ret::Verdict(ok, if ok { unsafe { vb.assume_init_read() } } else { false });
     match c {
